@@ -84,6 +84,12 @@ def install_contract(pydrex, ctx, state, window=None):
 
 
 def gen_cases(ctx):
+    # first case of every shard: a long default-options history that is preceded by a loose-tolerance preview on a
+    # throwaway mineral (see check_case): options of one call must not become the defaults of the next
+    yield {"kind": "history", "seed": 7 * (1000 + ctx.shard), "combo": int(ctx.shard % 6), "regime": 4, "n": 50, "tex": "random", "vol": "uniform",
+           "L": {"kind": "simple_shear", "seed": 11 + ctx.shard, "mode": "const", "k": 1.0}, "strain": 2.5, "N": 5, "equal": True,
+           "params": {"stress_exponent": 1.5, "deformation_exponent": 3.5, "nucleation_efficiency": 5.0, "gbm_mobility": 125.0, "gbs_threshold": 0.3},
+           "t0": 0.0, "regime_via": "static", "layout": "C", "reversed": False, "solver": "default"}
     n_hist = ctx.share(ctx.scale(140, 4000)) // (3 if ctx.mode == "bounds" else 1)
     for i in range(n_hist):
         rng = ctx.rng(1, i)
@@ -123,6 +129,15 @@ def check_case(ctx, case):
     mon = state["mon"]
     mon.case = case
     H = drive.History(pydrex, case)
+    if int(case["seed"]) % 7 == 0 or state.get("first_case", True):
+        # a coarse preview of the same history on a throwaway mineral with loose user-chosen solver options must not
+        # influence the monitored run that follows with its own (default) options
+        state["first_case"] = False
+        try:
+            H.run(H.mineral(), solver_kw={"rtol": 0.1, "atol": 0.1})
+            ctx.count("loose_previews")
+        except Exception:
+            ctx.count("loose_preview_raised")
     m = H.mineral()
     regime = H.regime
     ctx.cls(f"regime={regime}" + (f"->{case['regime2']}" if case.get("regime2") is not None else ""))
